@@ -1,14 +1,14 @@
 SPECIFICATION Spec
 CONSTANTS
-  DSNames = {"empty", "tiny", "tiny2", "basic", "wrap", "long", "kids", "role250", "meta", "hist", "delta", "wayloc"}
-  Grans = {100, 1000, 1}
+  DSNames = {"wayloc"}
+  Grans = {100, 1000, 1, 200}
   Offs = {0, 300}
   DGrans = {1000, 1, 60000}
   Sizes = {"normal"}
   Comps = {"raw", "zlib", "zlib0", "zlib9", "lz4", "lz4m"}
   Packs = {"packed"}
   XBlobs = {"none"}
-  Full = FALSE
-  ExportHist = FALSE
-INVARIANTS DecodedOK
+  Full = TRUE
+  ExportHist = TRUE
+INVARIANTS DecodedOK Export
 CHECK_DEADLOCK FALSE
